@@ -19,7 +19,9 @@ PROPERTY = "C09"
 TECHNIQUE = "contract on the real typing function + pass-boundary AST probe, against an independent spec table, exhaustive"
 LEVEL_TEXT = ("Exhaustive over the stated finite domain: all 51 597 (operator, left, right) triples of the internal type universe "
               "at the typing interface (post-condition contract on the real function) and all 2 548 spellable triples end to end "
-              "(accept/reject at the front-end gate, result type, inserted operand conversions).")
+              "(accept/reject at the front-end gate, result type, inserted operand conversions). Nested expressions `(a op b) op c` / `a op (b op c)` over all scalar "
+              "type triples x all operator pairs plus a seeded sample over all spellable types: a probe on the real tree judges the operand "
+              "types after implicit conversion at every operator node.")
 LEVEL_NOTE = ("Trusted: the spec table nslverif/ref/typing.py transcribed from the property statement. Matrix-vs-matrix comparison is "
               "undefined by the statement and skipped; the operands of a comparison must be brought to their common type; a one-column product may "
               "be a vector or an n x 1 matrix. Rejected = the call raised (interface) / the front end did not pass the gate (end to end).")
